@@ -19,6 +19,7 @@ func init() {
 			"PV-FRESH per-step tables of the binary operation",
 			"AF-SET nested by/without; PV-ROLE reported value = strconv.FormatFloat(v, 'f', -1, 64) on every path",
 			"PV-RESET literalBinOpIterator.Next: accepted results reach r.Samples and the list is cut/set to them",
+			"number tokens are evaluated by strconv.ParseFloat; fetchContainers lists the containers anew for every selector",
 		},
 		NotDecided: []string{"floating-point results", "per-step alignment of the two sides beyond 'built with the same parameters'"},
 		Rules: func(r *Run) {
@@ -36,6 +37,9 @@ func init() {
 			ruleByNesting(r) // operands match by their label sets: a label removed by an inner aggregation stays removed
 			ruleSampleValueFormat(r)
 			ruleLiteralBinOpWritesBack(r)
+			ruleUnitEvaluators(r)  // the scalar written in the query is the scalar applied
+			ruleFetchContainers(r) // both operands are computed from the containers their own selectors select
+			ruleOpenLogContext(r)
 		},
 	})
 }
